@@ -310,23 +310,26 @@ def run_unit(unit, repo='/repo', tier='quick', seed=0):
         res['reason'] = 'only %d function queries generated, expected >= %d (extraction lost an item?)' % (nq, cfg.get('min_queries', 1))
         return res
     if real_fails:
-        # stabilise: the failure must persist at 4x rlimit and under two other seeds
+        # stabilise: a failure is *unstable* (not reported) iff some re-run (4x rlimit, another solver seed) verifies
+        # the whole function; re-runs that hit the resource limit are inconclusive and do not clear a failure
         stable = set(f['obligation'] for f in real_fails)
+        failing_fns = set(f['function'] for f in real_fails)
         for sd in (11, 23):
             r2 = run_verus(path, rlimit=40, seed=sd)
-            again = set()
-            for d in r2['diags']:
-                if d.get('level') != 'error':
-                    continue
-                k = classify(d.get('message', ''))
-                if k is None:
-                    continue
-                prim, sec = spans_of(d)
-                if not prim and sec:
-                    prim = sec
-                ol = (sec[0]['line_start'] if (k in ('precondition', 'postcondition') and sec) else (prim[0]['line_start'] if prim else 0))
-                again.add((fn_at(ol), origin(ol)))
-            stable = set(o for o in stable if any(o.split('::')[1:-1] == fn.split('::') or ('::' + fn + '::') in o for fn, _ in again))
+            ok_fns = set()
+            for mod in r2['json'].get('times-ms', {}).get('smt', {}).get('smt-run-module-times', []):
+                for fb in mod.get('function-breakdown', []):
+                    if fb.get('success'):
+                        nm = fb['function']
+                        ok_fns.add(nm.split('::', 1)[1] if '::' in nm else nm)
+            for fn in failing_fns:
+                # verus names impl methods `Type::method` or `impl&%N::method`; compare on the last segment + uniqueness
+                last = fn.split('::')[-1]
+                cands = [o for o in ok_fns if o.split('::')[-1] == last]
+                same = [o for o in cands if o == fn or o.endswith('::' + fn)]
+                if same or (len(cands) == 1 and len([g for g in failing_fns if g.split('::')[-1] == last]) == 1 and not any(
+                        (d.get('level') == 'error' and fn_at((spans_of(d)[1] or spans_of(d)[0] or [{'line_start': 0}])[0]['line_start']) == fn) for d in r2['diags'])):
+                    stable = set(o for o in stable if ('::' + fn + '::') not in o)
         res['failures'] = [f for f in real_fails if f['obligation'] in stable]
         res['unstable'] = [f for f in real_fails if f['obligation'] not in stable]
         if res['failures']:
